@@ -6,6 +6,7 @@ import GqlVerif.Proofs.C01RecursiveV
 import GqlVerif.Proofs.C01Rust
 import GqlVerif.Proofs.C01VariantSpread
 import GqlVerif.Proofs.C01VariantSpreadG
+import GqlVerif.Proofs.C01RustSpread
 open GqlVerif.C03
 #print axioms ok_iff_accepts
 #print axioms null_at_non_null_rejected
@@ -62,3 +63,6 @@ open GqlVerif.C03
 #print axioms GqlVerif.C01.E2E.mi_precise
 #print axioms GqlVerif.C01.E2E.ls_precise
 #print axioms GqlVerif.C01.E2E.a2_precise
+-- under normalization rust (Proofs/C01RustSpread.lean)
+#print axioms GqlVerif.C01.E2E.variantspread_precise_iff_rust
+#print axioms GqlVerif.C01.E2E.variantspread2_precise_iff_rust
